@@ -114,7 +114,7 @@ def main():
         except Exception:
             vals["blksizeMin"], vals["blksizeMax"], vals["blksizeChecked"] = 8, 65464, True
             degraded.append("blksizeGuard")
-    elif "return Err" not in blk:
+    elif "Err" not in blk and "?" not in blk and "check" not in blk and "range" not in blk.lower() and "clamp" not in blk:
         # no guard at all in the BlockSize arm: the code accepts every value
         vals["blksizeMin"], vals["blksizeMax"], vals["blksizeChecked"] = 0, 2**64 - 1, False
     else:
